@@ -56,7 +56,7 @@ def main():
           for p in props if p not in CHECKS]
     man = {
         "version": 1,
-        "setup_cmd": "cd lean && lake build",
+        "setup_cmd": "./setup.sh",
         "hooks": {
             "guard": "FRAME_VERIF",
             "enable": "no source hooks are needed: the harness imports /repo's working tree in-process and observes through public attributes",
